@@ -54,11 +54,16 @@ CLAIMED = {
    design="5/C10"),
  "C15": dict(
    text="Lean theorems: the island scan returns a member with minimal non-NaN key for every arrangement, NaN only if all are NaN (island_scan, island_scan_perm); the same scan over "
-        "per-island bests gives the archipelago minimum (archipelago_best); Python min()/sort are NOT NaN-safe (pymin_not_nan_safe, the defect fixed in /repo). "
-        "Tie: scripted populations on real Island/SerialArchipelago vs the model, independent oracle, predictor-island full-data fitness recomputed.",
-   note=COMMON_NOTE + "FitnessPredictorIsland clause is oracle-validated (no separate theorem beyond the scan). ParallelArchipelago's copy of the scan is exercised under C12.",
-   technique="Lean 4 proof (fold invariant, permutation invariance) + correspondence on scripted populations",
-   design="5/C15"),
+        "per-island bests gives the archipelago minimum (archipelago_best); Python min()/sort are NOT NaN-safe (pymin_not_nan_safe, the defect fixed in /repo); the predictor island's reported best and "
+        "hall-of-fame candidates carry the full-data fitness of the member the scan selects (fpi_best_true, fpi_hof_true, method texts pinned by gen_fpi_shapes). Object level (Props/C15Query.lean, "
+        "Model/BestQuery.lean): Island.get_best_individual INCLUDING its evaluation step, for every population whose flagged members are fresh, every generational age and evaluation mode: no exception on a "
+        "non-empty population, the reported individual is a member, marked evaluated, carries the fitness function's value for its own genome, and that value is minimal among the non-NaN values of all genomes "
+        "(island_best_some, island_best_true, prepare_evaluated, prepare_genomes). "
+        "Tie: scripted populations on real Island/SerialArchipelago vs the model (keys in every arrangement; every flag state x age 0/later x redundant or not), independent oracle, predictor-island "
+        "full-data fitness recomputed, queries at the same age with a population change in between.",
+   note=COMMON_NOTE + "ParallelArchipelago's copy of the scan is exercised under C12. Repaired defects F4 and F21 are listed as fixed in known_findings.json.",
+   technique="Lean 4 proof (fold invariant, permutation invariance, evaluation-step postcondition) + correspondence on scripted populations in every flag state",
+   design="5/C15, 12.2"),
  "C13": dict(
    text="Lean theorems over a file-system step model whose step order / file opened / rename are REGENERATED from evolutionary_optimizer.py: at every crash point (every prefix of the call's "
         "steps, fresh or resumed disk) once a complete checkpoint exists one always exists, of a generation <= the one being written (one_complete, complete_persists), at most num+1 files of "
